@@ -173,7 +173,7 @@ Definition wcci_next (s : wcci_st) (k : candle) : wcci_st * iresult :=
   let '(c, cr) := cross_next (wc_cross s) (trend, f0) in
   let x := a_analog cr in
   let count := if x =? 0 then wc_count s + (b2z (fgt trend f0) - b2z (flt trend f0)) else x in
-  let s1 := b2z (Z.abs count =? wc_lag s) * x in
+  let s1 := b2z (Z.abs count =? wc_lag s) * Z.sgn count in
   (mkWcci (wc_lag s) (wc_source s) a b count c, ([turbo; trend], [a_from_i8 s1])).
 
 (* -------------------------------------------------------------- coppock_curve.rs *)
